@@ -1,10 +1,10 @@
 package main
 
 import (
-	"runtime/debug"
 	"fmt"
 	"go/types"
 	"regexp"
+	"runtime/debug"
 	"sort"
 	"strings"
 
@@ -141,8 +141,15 @@ func (e *Engine) VerifyFunction(fn *ssa.Function, c *Contract) (res *FnCtx) {
 		if c.ModGiven && c.AssumeFrame == "" {
 			fr.frameObligations(ri, r)
 		}
-		// cover: the return site is reachable
-		o := &Obligation{Name: fmt.Sprintf("cover:return#%d", ri+1), Kind: "cover", Func: fc.fnName(), Guard: r.guard, Goal: "false", NFacts: len(fc.facts), fc: fc, Props: c.Props, Cover: true, Block: r.blk}
+		// cover: the return site is reachable - unless the contract declares the code after a certain call dead under
+		// its (restricting) pre-conditions; then the return site must be proved unreachable instead
+		if fr.deadReturn(c, r.blk) {
+			if o := fc.oblige("dead", fmt.Sprintf("return#%d", ri+1), r.guard, "false", r.pos, c.Props); o != nil {
+				fc.facts = fc.facts[:len(fc.facts)-1]
+			}
+			continue
+		}
+		o := &Obligation{Name: fmt.Sprintf("cover:return#%d", ri+1), Kind: "cover", Func: fc.fnName(), Guard: r.guard, Goal: "false", NFacts: len(fc.facts), fc: fc, Props: c.Props, Cover: true, Block: r.blk, Restricted: c.Restricted != ""}
 		fc.obls = append(fc.obls, o)
 	}
 	if len(fr.rets) == 0 {
@@ -625,4 +632,35 @@ func indexTerms(s string) []string {
 		walk(strings.TrimSpace(part))
 	}
 	return out
+}
+
+// deadReturn: the contract says `dead after <callee>` and the block of this return is dominated by a block that calls it
+func (fr *Frame) deadReturn(c *Contract, blk *ssa.BasicBlock) bool {
+	if blk == nil {
+		return false
+	}
+	for _, name := range c.Dead {
+		for _, b := range fr.fn.Blocks {
+			if b != blk && !b.Dominates(blk) {
+				continue
+			}
+			for _, ins := range b.Instrs {
+				call, ok := ins.(ssa.CallInstruction)
+				if !ok {
+					continue
+				}
+				cc := call.Common()
+				cn := ""
+				if cc.IsInvoke() {
+					cn = cc.Method.Name()
+				} else if f := cc.StaticCallee(); f != nil {
+					cn = f.String()
+				}
+				if cn != "" && strings.Contains(cn, name) {
+					return true
+				}
+			}
+		}
+	}
+	return false
 }
